@@ -364,6 +364,16 @@ def collect():
     T["guard_range"] = guard_range
     T["guard_constraint"] = guard_constraint
 
+    # attrs fields of the three frozen base classes: which take part in == and in hash()
+    fields = {}
+    for c in (vs.Version, vc.VersionConstraint, vr.VersionRange):
+        rows = []
+        for a in attr.fields(c):
+            eq = bool(a.eq)
+            h = eq if a.hash is None else bool(a.hash)
+            rows.append((a.name, eq, h))
+        fields[c.__name__] = rows
+    T["attrs_fields"] = fields
     # effective dunder origin of the two container classes
     T["container_origin"] = {
         (c.__name__, m): method_origin(c, f"__{m}__")
@@ -494,6 +504,13 @@ def emit(T):
                 w(f"  | R_{ident(r)}, V_{ident(b)} => {v}")
         w(f"  | _, _ => {default}")
         w("  end.")
+    w("")
+    w("(* attrs fields (name, compared by ==, hashed) of the frozen base classes; and which function is in effect for __eq__/__hash__ *)")
+    for cname, rows in T["attrs_fields"].items():
+        w(f"Definition fields_{ident(cname)} : list (string * bool * bool) := " + coq_list(
+            [f"({coq_str(n)}, {coq_bool(e)}, {coq_bool(h)})" for n, e, h in rows]) + ".")
+    for (cname, m), (kind, _owner) in T["container_origin"].items():
+        w(f"Definition origin_{ident(cname)}_{m} : string := {coq_str(kind)}.")
     w("")
     w("(* ---- scheme tables ---- *)")
     w("Definition legacy_base : list string := " + coq_list([coq_str(x) for x in T["legacy_base"]]) + ".")
